@@ -209,6 +209,9 @@ def compute_simple_persistence(
 
     pixel_diff = pixel_array - pixel_start
 
+    # The charge clipped from every trap species goes back to the pixel
+    output_pixel = pixel_array.copy()
+
     for i, trapped_charge in enumerate(all_trapped_charge):
         if trap_capacities is None:
             fwc = None
@@ -220,7 +223,7 @@ def compute_simple_persistence(
 
         trapped_charge_clipped, output_pixel = clip_trapped_charge(
             trapped_charge=trapped_charge,
-            pixel=pixel_array,
+            pixel=output_pixel,
             available_traps=available_traps,
             pixel_diff=pixel_diff,
             trap_capacities=fwc,
@@ -407,6 +410,9 @@ def compute_persistence(
 
     pixel_diff = pixel_array - pixel_start
 
+    # The charge clipped from every trap species goes back to the pixel
+    output_pixel = pixel_array.copy()
+
     for i, trapped_charge in enumerate(all_trapped_charge):
         if trap_capacities_2d is None:
             fwc = None
@@ -418,7 +424,7 @@ def compute_persistence(
 
         trapped_charge_clipped, output_pixel = clip_trapped_charge(
             trapped_charge=trapped_charge,
-            pixel=pixel_array,
+            pixel=output_pixel,
             available_traps=available_traps,
             pixel_diff=pixel_diff,
             trap_capacities=fwc,
